@@ -70,6 +70,18 @@ SameGrouping(A, B) ==
          /\ Len(A[i].holes) = Len(B[i].holes)
          /\ \A j \in 1..Len(A[i].holes) : RingEq(Closed2(A[i].holes[j]), Closed2(B[i].holes[j]))
 
+\* C05 for shapes obtained by conversion: the X/Y box is the extremes of the vertices
+RECURSIVE FlatPts(_, _)
+FlatPts(parts, i) == IF i > Len(parts) THEN << >> ELSE parts[i] \o FlatPts(parts, i + 1)
+BoxXYOK(s) ==
+    LET ps == FlatPts(s.parts, 1)
+    IN  (ps # << >> /\ s.t \notin {1, 11, 21}) =>
+          /\ \A i \in 1..Len(ps) : s.box[1] <= ps[i][1] /\ ps[i][1] <= s.box[3] /\ s.box[2] <= ps[i][2] /\ ps[i][2] <= s.box[4]
+          /\ \E i \in 1..Len(ps) : ps[i][1] = s.box[1]
+          /\ \E i \in 1..Len(ps) : ps[i][1] = s.box[3]
+          /\ \E i \in 1..Len(ps) : ps[i][2] = s.box[2]
+          /\ \E i \in 1..Len(ps) : ps[i][2] = s.box[4]
+
 \* which geo-types Geometry variant a shape of type t converts to ("" = refused)
 GeometryOf(t, kinds) ==
     CASE t = 0 -> ""
